@@ -58,6 +58,12 @@ ASSUMPTIONS = [
     "exception object/class for an unavailable config, CannotListenError for the bind, a TorProtocolError carrying Tor's status code when Tor "
     "refused the creating command, an error naming this service for 'all uploads failed', CancelledError (TimeoutError through addTimeout) when the "
     "caller cancelled; for a lost control connection any non-wrapping failure is accepted (the types seen are listed in the evidence)",
+    "'all uploads failed' is announced with the REASON values Tor uses for a failed upload (UPLOAD_REJECTED, UNEXPECTED) and without the optional REASON "
+    "field, also mixed over the directories; REASONs of failed FETCHES (NOT_FOUND, QUERY_*) are not generated for the own service",
+    "route tor-lazy also runs with a SECOND (ephemeral, unauthenticated) endpoint made from the same Tor object before its configuration was fetched; its "
+    "listen() is called before, right after, or while the first one's is waiting for the unanswered config fetch; nothing is injected there, so both must "
+    "succeed, each judged on its own (service in Tor and own UPLOADED at firing, open loopback listener on the forwarded port, stop closes it); the twin's "
+    "descriptor goes to a directory neither service uses otherwise",
     "caller-side cancellation: listen()'s Deferred is cancelled right after the call, while the k-th command line is unanswered (every k), "
     "inside the descriptor wait, and by an addTimeout(600) expiring there: listen() must then fail (never succeed), exactly once, and leave no "
     "listener open; a creating command already queued in the control protocol may still go out afterwards - not judged",
@@ -129,7 +135,8 @@ FLOORS = {
     "quick": {"evaluations": 1400, "listen_calls": 1400, "listeners_checked_loopback": 1200, "mappings_compared": 800,
               "not_fired_checks": 4500, "not_fired_nor_failed_on_foreign_events_checks": 500, "foreign_window_runs": 120, "gethost_compared": 180, "stop_checked": 180, "stops_after_restart_checked": 90, "leak_checks_after_failure": 1200,
               "failure_errors_compared": 1000, "refusals_before_start_checked": 10, "reactor_watched_for_starts_before_refusal": 14, "config_bootstrap_failures_compared": 150,
-              "preconfigured_directory_runs": 15, "cancellations_checked": 400, "cancelled:cancelled-during-descriptor-wait": 120, "cancelled:cancelled-while-creating": 100,
+              "preconfigured_directory_runs": 15, "twin_runs": 20, "twin_successes_checked": 18, "own_failed_events:REASON=UNEXPECTED": 60, "own_failed_events:REASON=-": 40,
+              "cancellations_checked": 400, "cancelled:cancelled-during-descriptor-wait": 120, "cancelled:cancelled-while-creating": 100,
               "cancelled:cancelled-before-bind": 40, "relisten_runs": 300, "relisten_successes_checked": 150,
               "relisten_open_listener_checks": 100, "relisten_failures_checked": 15, "relisten:after-stop-port-taken": 60,
               "relisten:after-service-removed": 60, "relisten:without-stop": 60, "fault:reject-line": 120, "route:ctor-raw": 100, "fault:close-on-line": 300,
@@ -142,7 +149,8 @@ FLOORS = {
     "thorough": {"evaluations": 4500, "listen_calls": 4500, "listeners_checked_loopback": 3500, "mappings_compared": 2500,
                  "not_fired_checks": 14000, "not_fired_nor_failed_on_foreign_events_checks": 900, "foreign_window_runs": 200, "gethost_compared": 500, "stop_checked": 500, "stops_after_restart_checked": 250, "leak_checks_after_failure": 3500,
                  "failure_errors_compared": 3000, "refusals_before_start_checked": 10, "reactor_watched_for_starts_before_refusal": 14, "config_bootstrap_failures_compared": 400,
-                 "preconfigured_directory_runs": 15, "cancellations_checked": 900, "cancelled:cancelled-during-descriptor-wait": 200, "cancelled:cancelled-while-creating": 200,
+                 "preconfigured_directory_runs": 15, "twin_runs": 20, "twin_successes_checked": 18, "own_failed_events:REASON=UNEXPECTED": 60, "own_failed_events:REASON=-": 40,
+                 "cancellations_checked": 900, "cancelled:cancelled-during-descriptor-wait": 200, "cancelled:cancelled-while-creating": 200,
                  "cancelled:cancelled-before-bind": 150, "relisten_runs": 400, "relisten_successes_checked": 200,
                  "relisten_open_listener_checks": 130, "relisten_failures_checked": 20, "relisten:after-stop-port-taken": 70,
                  "relisten:after-service-removed": 70, "relisten:without-stop": 70, "fault:reject-line": 400, "route:ctor-raw": 400, "fault:close-on-line": 1200,
@@ -262,9 +270,15 @@ def base_faults(route, cell):
         f.append(["reject", word, code])
     for n in (1, 2, 3):
         f.append(["uploads-failed", n])
+    # the same with the other ways Tor words a failed upload: REASON=UNEXPECTED, no REASON field, varied per directory
+    f += [["uploads-failed", 1, "unexpected"], ["uploads-failed", 2, "unexpected"], ["uploads-failed", 1, "no-reason"], ["uploads-failed", 3, "mixed"]]
     if route not in LAZY:
         f.append(["lose", "before-listen"])
     f.append(["lose", "after-upload"])
+    if route == "tor-lazy":
+        # a SECOND endpoint made from the same Tor object before its config was fetched; its listen() is called before / right after /
+        # in the middle of (config fetch unanswered) the first one's; each listen() is judged on its own
+        f += [["none", "twin", "first"], ["none", "twin", "second"], ["none", "twin", "midway"]]
     # the caller of listen() gives up (d.cancel() / an addTimeout expiring): right after the call, and inside the descriptor wait
     f += [["cancel", "after-listen"], ["cancel", "descriptor-wait"], ["cancel", "timeout-in-descriptor-wait"]]
     # histories on ONE endpoint object: listen() again after the returned port was stopped / without stopping it /
@@ -411,6 +425,8 @@ class Obs(object):
         self.rejected_line = None
         self.uploaded_for = {}            # service id -> own UPLOADED events sent so far
         self.relisten = None              # observations of the second listen() on the same endpoint object
+        self.failed_reasons = []
+        self.twin = None                  # observations of a second endpoint made from the same Tor object
         self.first_sid = None             # HS_DESC address of the service of the first listen()
         self.cancelled = None             # {"bound": bool, "create_acked": bool, "how": ...} when the caller cancelled before listen() fired
         self.first_listen_calls = None
@@ -492,6 +508,8 @@ class World(object):
         self.ep = None
         self.tmpfiles = []
         self.real_dir = None
+        self.twin_ep = None
+        self.twin_factory = None
         self.replies0 = 0
         self.replies1 = None          # end of the first listen()'s dialogue (set when a second listen() starts)
         self._unstub = None
@@ -503,7 +521,7 @@ class World(object):
         calls = self.obs.listen_calls
 
         def listenTCP(port, factory, backlog=50, interface=""):
-            ent = {"port": port, "interface": interface, "ok": None, "lp": None}
+            ent = {"port": port, "interface": interface, "ok": None, "lp": None, "factory": factory}
             calls.append(ent)
             try:
                 lp = orig(port, factory, backlog, interface)
@@ -527,6 +545,8 @@ class World(object):
         if f[0] == "close-on-line" and self.armed_lines == f[1]:
             self.tor.scripted.insert(0, (lambda l: True, "close", True))
             self.obs.lost_by_fault = True
+        if f[:3] == ["none", "twin", "midway"] and self.armed_lines == 3:
+            self.twin_listen()          # the first endpoint's listen() is waiting for the config fetch, which Tor has not answered yet
         if f[0] == "cancel-on-line" and self.armed_lines == f[1]:
             self.cancel_listen("cancel() while line %d is unanswered" % f[1])
         if f[0] == "reject-line" and self.armed_lines == f[1]:
@@ -577,6 +597,45 @@ class World(object):
         for e in self.logs.take():
             if len(self.obs.log_errors) < 6:
                 self.obs.log_errors.append((name, e[0], e[1][:160]))
+
+    # -- the twin endpoint --------------------------------------------------------
+    def twin_port(self):
+        for c in self.obs.listen_calls:
+            if c["ok"] and self.twin_factory is not None and c["factory"] is self.twin_factory:
+                return c["lp"].port
+        return None
+
+    def is_twin_line(self, line):
+        tp = self.twin_port()
+        if tp is None or line.partition(" ")[0].upper() != "ADD_ONION":
+            return False
+        return any(tok.startswith("Port=") and tok.endswith(":%d" % tp) for tok in line.split(" "))
+
+    def twin_service(self):
+        for ent in reversed(self.tor.add_onion_log):
+            if ent["code"] == 250 and self.is_twin_line("ADD_ONION " + ent["rest"]):
+                return ent["service_id"]
+        return None
+
+    def twin_listen(self):
+        from twisted.internet import protocol
+        if self.twin_ep is None or self.obs.twin is not None:
+            return
+        t = self.obs.twin = {"order": self.fault[2], "raised": None, "outcome": None, "at_fire": None, "uploaded_sent": 0,
+                             "open_after_listen": None, "mapping": None, "open_after_stop": None, "stop_raised": None}
+        self.twin_factory = protocol.Factory()
+        try:
+            d = self.twin_ep.listen(self.twin_factory)
+        except Exception as e:      # noqa
+            t["raised"] = repr(e)
+            return
+        t["outcome"] = self.aud.watch(d, "twin-listen")
+
+        def snap(res):
+            sid = self.twin_service()
+            t["at_fire"] = {"service_in_tor": bool(sid and sid in self.tor.onions), "own_uploaded_sent": t["uploaded_sent"]}
+            return res
+        d.addBoth(snap)
 
     def cancel_listen(self, how):
         """the caller of listen() cancels the Deferred it was given (only meaningful while it has not fired)"""
@@ -744,6 +803,11 @@ class World(object):
                 ep = self._build_ctor(TCPHiddenServiceEndpoint, config_arg, hsdir)
             elif route.startswith("tor"):
                 ep = self._build_tor(tor_obj, hsdir)
+                if self.fault[:2] == ["none", "twin"]:
+                    tp = cell["public_port"] + 1 if cell["public_port"] < 65535 else cell["public_port"] - 1
+                    self.twin_public_port = tp
+                    # (on a non-anonymous Tor only single-hop services are accepted)
+                    self.twin_ep = tor_obj.create_onion_endpoint(tp, single_hop=True if cell.get("hop") == "yes" else None)
             else:
                 ep = self._build_string(hsdir)
         except Exception as e:          # noqa: whatever the constructor raises is an observation
@@ -983,7 +1047,7 @@ class World(object):
         tor = self.tor
         if self.cell.get("eph", True):
             for ent in reversed(tor.add_onion_log):
-                if ent["code"] == 250:
+                if ent["code"] == 250 and not self.is_twin_line("ADD_ONION " + ent["rest"]):
                     return ent["service_id"], ent["service_id"] + ".onion", True
             return None
         want = os.path.realpath(self.ep.hidden_service_dir) if self.ep is not None and self.ep.hidden_service_dir else None
@@ -1017,6 +1081,8 @@ def execute(case):
         if w.fault == ["lose", "before-listen"]:
             w.lose()
         factory = protocol.Factory()
+        if w.fault[:3] == ["none", "twin", "first"]:
+            w.twin_listen()
         try:
             d = ep.listen(factory)
         except Exception as e:      # noqa
@@ -1042,6 +1108,8 @@ def execute(case):
             return res
         d.addBoth(snap)
         obs.steps.append(("listen-called", bool(o.fired), _create_acked(w)))
+        if w.fault[:3] == ["none", "twin", "second"]:
+            w.twin_listen()
         w.resolve_config()
         if obs.harness:
             return w
@@ -1126,9 +1194,18 @@ def execute(case):
                 w.reactor.advance(601)
                 w.step("timed-out")
             if w.fault[0] == "uploads-failed":
+                variant = w.fault[2] if len(w.fault) > 2 and w.fault[2] != "relisten" else "rejected"
                 for i in range(n):
-                    if w.tor.hs_desc("FAILED", addr, i, descid=AO.descriptor_id(addr, i), reason="UPLOAD_REJECTED"):
+                    reason = {"rejected": "UPLOAD_REJECTED", "unexpected": "UNEXPECTED", "no-reason": None,
+                              "mixed": ("UNEXPECTED", None, "UPLOAD_REJECTED")[i % 3]}[variant]
+                    if reason is None:
+                        # (vf.refs.addonion always writes a REASON; this is the event without the optional field)
+                        sent = w.tor.emit("HS_DESC", "FAILED %s UNKNOWN %s %s" % (addr, AO.hsdir_name(i), AO.descriptor_id(addr, i)))
+                    else:
+                        sent = w.tor.hs_desc("FAILED", addr, i, descid=AO.descriptor_id(addr, i), reason=reason)
+                    if sent:
                         obs.own_failed_sent += 1
+                        obs.failed_reasons.append(reason or "-")
                     w.step("failed:%d" % i)
             else:
                 for i in range(n):
@@ -1136,6 +1213,26 @@ def execute(case):
                         obs.own_uploaded_sent += 1
                         obs.uploaded_for[addr] = obs.uploaded_for.get(addr, 0) + 1
                     w.step("uploaded:%d" % i)
+        # ---- the twin endpoint's service gets its descriptor uploaded too (directories of its own); then its port is stopped
+        if obs.twin is not None and obs.twin["outcome"] is not None:
+            t = obs.twin
+            tsid = w.twin_service()
+            if tsid is not None and not t["outcome"].fired:
+                w.tor.hs_desc("UPLOAD", tsid, 5, descid=AO.descriptor_id(tsid, 5))
+                w.step("twin:upload")
+                if w.tor.hs_desc("UPLOADED", tsid, 5):
+                    t["uploaded_sent"] += 1
+                w.step("twin:uploaded")
+            if t["outcome"].fired and t["outcome"].ok:
+                tp = w.twin_port()
+                t["open_after_listen"] = [x for x in w.open_ports() if x[1] == tp]
+                t["mapping"] = tor_mapping(w, tsid) if tsid else None
+                try:
+                    t["outcome"].value.stopListening()
+                except Exception as e:      # noqa
+                    t["stop_raised"] = repr(e)
+                w.step("twin:stopped")
+                t["open_after_stop"] = [x for x in w.open_ports() if x[1] == tp]
         # ---- success: the port object
         if o.fired == 1 and o.ok:
             port = o.value
@@ -1318,6 +1415,8 @@ def _create_acked(w):
     """did Tor answer 250 to a creating command of this endpoint (and was the answer handed to the link)?"""
     for (line, code, parts) in w.tor.replies[w.replies0:w.replies1]:
         word = line.partition(" ")[0].upper()
+        if w.is_twin_line(line):
+            continue
         if code == 250 and (word == "ADD_ONION" or (word in ("SETCONF", "RESETCONF") and "hiddenservicedir" in line.lower())):
             return True
     return False
@@ -1328,6 +1427,8 @@ def _create_reply(w):
     code = None
     for (line, c, parts) in w.tor.replies[w.replies0:w.replies1]:
         word = line.partition(" ")[0].upper()
+        if w.is_twin_line(line):
+            continue
         if word == "ADD_ONION" or (word in ("SETCONF", "RESETCONF") and "hiddenservicedir" in line.lower()):
             code = c
     return code
@@ -1460,7 +1561,66 @@ def judge(w, rec, case):
     bad, nontrivial = judge_first(w, rec, case)
     if w.obs.relisten is not None:
         bad = bad + judge_relisten(w, rec, case)
+    if w.fault[:2] == ["none", "twin"]:
+        bad = bad + judge_twin(w, rec, case)
     return bad, nontrivial
+
+
+def judge_twin(w, rec, case):
+    """a second (ephemeral, unauthenticated) endpoint made from the same Tor object: nothing was injected, so its listen() is judged like
+    any fault-free listen()"""
+    t = w.obs.twin
+    cls = "ephemeral+second-endpoint-of-one-tor+listen-%s" % w.fault[2]
+    bad = []
+
+    def V(clause, detail):
+        bad.append(clause)
+        d = dict(detail)
+        o = t["outcome"] if t else None
+        d["twin"] = {"outcome": o.describe() if o is not None and o.fired else "pending", "at_fire": t and t["at_fire"], "mapping": t and t["mapping"],
+                     "open_after_listen": t and t["open_after_listen"]}
+        d["lines"] = w.tor.lines[w.obs.lines0:][-8:]
+        rec.violation(clause, cls, d, case)
+
+    if t is None:
+        rec.count("twin_not_started")
+        return bad
+    rec.count("twin_runs")
+    rec.count("twin:" + w.fault[2])
+    if t["raised"]:
+        V("listen-raised-synchronously", {"exc": t["raised"]})
+        return bad
+    o = t["outcome"]
+    if not o.fired:
+        V("listen-pending-at-quiescence", {})
+        return bad
+    if o.fired > 1:
+        V("listen-fired-%d-times" % o.fired, {})
+    if not o.ok:
+        refused = [c for (l, c, pp) in w.tor.replies if l.startswith("ADD_ONION") and c >= 400 and ("Port=%d," % w.twin_public_port) in l]
+        if refused and getattr(o.value, "code", None) == refused[-1]:
+            rec.count("twin_refused_by_tor")       # Tor itself refused the twin's service: a failing run, nothing to judge here
+            return bad
+        V("listen-failed-without-fault", {"got": "%s: %s" % (type(o.value).__name__, o.value)})
+        return bad
+    rec.count("twin_successes_checked")
+    af = t["at_fire"] or {}
+    if not af.get("service_in_tor"):
+        V("fired-before-service-exists", {})
+    elif not af.get("own_uploaded_sent"):
+        V("fired-before-descriptor-wait-over", {})
+    tp = w.twin_port()
+    if not t["open_after_listen"] or any(not is_loopback(i) for (i, pp) in t["open_after_listen"]):
+        V("listen-resolved-without-open-listener" if not t["open_after_listen"] else "non-loopback-listener", {})
+    elif t["mapping"] is not None:
+        got = [(pp, tuple(x)) for (pp, x) in t["mapping"]]
+        if got != [(w.twin_public_port, ("127.0.0.1", tp))]:
+            V("port-mapping-mismatch", {"tor_forwards": got, "bound": tp})
+    if t["stop_raised"]:
+        V("stoplistening-raised", {"exc": t["stop_raised"]})
+    if t["open_after_stop"]:
+        V("stoplistening-left-listener-open", {"open": t["open_after_stop"]})
+    return bad
 
 
 def judge_relisten(w, rec, case):
@@ -1534,8 +1694,8 @@ def judge_relisten(w, rec, case):
 
 def judge_first(w, rec, case):
     obs, cell, f = w.obs, w.cell, w.fault
-    listen_calls = obs.listen_calls[:obs.first_listen_calls]
-    create_seen = obs.create_seen[:obs.first_create_seen]
+    listen_calls = [c for c in obs.listen_calls[:obs.first_listen_calls] if w.twin_factory is None or c.get("factory") is not w.twin_factory]
+    create_seen = [cs for cs in obs.create_seen[:obs.first_create_seen] if not w.is_twin_line(cs["line"])]
     kind = kind_of(cell)
     bad = []
 
@@ -1744,6 +1904,8 @@ def judge_first(w, rec, case):
         return bad, True
     rec.count("failure_runs")
     rec.count("failure_step:" + step)
+    for rs in obs.failed_reasons:
+        rec.count("own_failed_events:REASON=" + rs)
     if natural_failure and not fault_injected:
         rec.count("natural_refusals")
     rec.count("leak_checks_after_failure")
